@@ -293,7 +293,7 @@ impl Check for C15 {
         60
     }
     fn cases(&self, tier: Tier) -> u64 {
-        tier.pick(200, 10_000)
+        tier.pick(800, 10_000)
     }
     fn run(&self, case: &Case) -> (Verdict, CaseInfo) {
         let mut info = CaseInfo::default();
